@@ -85,6 +85,7 @@ InterpreterEnv::InterpreterEnv(std::vector<valtype>& stack_in, const CScript& sc
 , done(pc == pend)
 , tce(nullptr)
 , scriptsig_ran(false)
+, scriptsig_before_empty_scriptpubkey(false)
 , has_op_success(false)
 {
     sigversion = sigversion_in;
@@ -305,6 +306,10 @@ bool StepScript(InterpreterEnv& env)
 
     if (!vfExec.empty())
         return set_error(serror, SCRIPT_ERR_UNBALANCED_CONDITIONAL);
+
+    // no scriptPubKey to hand over to (it is empty), so the rule the hand-over applies to a scriptSig is applied here
+    if (env.scriptsig_before_empty_scriptpubkey && (env.flags & SCRIPT_VERIFY_SIGPUSHONLY) && !env.scriptIn.IsPushOnly())
+        return set_error(serror, SCRIPT_ERR_SIG_PUSHONLY);
 
     // An output (or P2SH redeem script) that is a witness program has been evaluated as an ordinary script: the
     // input carries no witness (with one, the witness script is what the session runs). Validation hands the
